@@ -45,9 +45,6 @@ theorem answer_opsMap (s : AState) (sl m) : OpsMap s (s.answer sl m) := by
         { r with st := .answered { m, birth := s.birth, digest := s.log } } else r, rfl, ?_⟩
     constructor <;> intro r <;> split <;> simp_all
 
-theorem submit_ops {s s' : AState} {pl path tok} (h : s.submit pl path tok = some s') : s'.ops = s.ops := by
-  obtain ⟨_, rfl⟩ := submit_some h; rfl
-
 theorem fail_opsMap (s : AState) : OpsMap s s.fail := by
   unfold fail
   exact (cancelSlots_opsMap s _).trans (.of_eq rfl)
@@ -55,6 +52,12 @@ theorem fail_opsMap (s : AState) : OpsMap s s.fail := by
 theorem finish_opsMap (s : AState) : OpsMap s s.finish := by
   unfold finish
   exact (cancelSlots_opsMap s _).trans (.of_eq rfl)
+
+theorem beginWait_ops (s : AState) (o h k j) :
+    ∃ st, (s.beginWait o h k j).ops = s.ops ++ [{ o, h, kind := k, st }] := by
+  unfold beginWait; split
+  · split <;> exact ⟨_, rfl⟩
+  · exact ⟨_, rfl⟩
 
 /-- `begin`: exactly one fresh record is appended (after a possible submission). -/
 theorem stepBegin_ops {w s o h k s'} (hs : stepBegin w s o h k = some s') :
@@ -69,24 +72,13 @@ theorem stepBegin_ops {w s o h k s'} (hs : stepBegin w s o h k = some s') :
         simp at hg
         exact Option.not_isSome_iff_eq_none.mp (by simp [hg.2])
       refine ⟨hfresh, ?_⟩
-      simp only at hs
-      split at hs
-      · simp at hs; subst hs; exact ⟨_, rfl⟩
-      · split at hs
-        · simp at hs; subst hs
-          unfold beginWait; split
-          · split <;> exact ⟨_, rfl⟩
-          · exact ⟨_, rfl⟩
-        · split at hs
-          · simp at hs; subst hs; exact ⟨_, rfl⟩
-          · simp at hs; subst hs
-            rename_i hsub
-            have := submit_ops hsub
-            unfold beginWait; split
-            · split
-              · exact ⟨.joinNone, by simp [this]⟩
-              · exact ⟨.joining, by simp [this]⟩
-            · exact ⟨.pending, by simp [this]⟩
+      (repeat' (split at hs)) <;>
+        (first
+          | (simp at hs; done)
+          | (simp at hs; subst hs; first
+              | exact ⟨_, rfl⟩
+              | exact beginWait_ops _ _ _ _ _
+              | (obtain ⟨st, h⟩ := beginWait_ops (s.push ‹_› ‹_› ‹_›) o h k ‹_›; exact ⟨st, by simpa using h⟩)))
 
 theorem retEffect_ops (s : AState) (r : OpRec) : (s.retEffect r).ops = s.ops.filter (fun x => x.o != r.o) := by
   unfold retEffect
@@ -124,7 +116,7 @@ macro "ops_crush" hs:ident : tactic => `(tactic|
      | (simp at $hs:ident; subst $hs:ident; first
          | exact OpsMap.of_eq rfl
          | (refine OpsMap.of_eq ?_; simp; done)
-         | (refine OpsMap.of_eq ?_; (try simp only [setTimer_ops]); apply submit_ops; assumption)
+         | (refine OpsMap.of_eq ?_; simp; done)
          | exact fail_opsMap _
          | exact finish_opsMap _))))
 
@@ -141,7 +133,7 @@ theorem stepSignal_ops {w s h pl path ok s'} (hs : stepSignal w s h pl path ok =
   unfold stepSignal at hs; ops_crush hs
 theorem stepQuery_ops {w s h b s'} (hs : stepQuery w s h b = some s') : OpsMap s s' := by
   unfold stepQuery at hs; ops_crush hs
-theorem stepCbBegin_ops {s cb s'} (hs : stepCbBegin s cb = some s') : OpsMap s s' := by
+theorem stepCbBegin_ops {w s cb s'} (hs : stepCbBegin w s cb = some s') : OpsMap s s' := by
   unfold stepCbBegin at hs; ops_crush hs
 theorem stepCbEnd_ops {s cb ok s'} (hs : stepCbEnd s cb ok = some s') : OpsMap s s' := by
   unfold stepCbEnd at hs
